@@ -7,6 +7,7 @@ import (
 
 	"codeberg.org/TauCeti/mangle-go/analysis"
 	"codeberg.org/TauCeti/mangle-go/ast"
+	"codeberg.org/TauCeti/mangle-go/parse"
 
 	"verif/internal/core"
 )
@@ -27,6 +28,10 @@ type c03Case struct {
 	Edges []c03Edge `json:"edges"`
 	Enum  int       `json:"enum"` // >=0: index in the exhaustive 3-predicate enumeration
 	Perm  int64     `json:"perm"` // != 0: the rules are shuffled with this PRNG seed
+	// Via != 0: the rule set is not handed to Stratify directly but goes through the analysis of a source unit that
+	// also holds facts (for e and for some of the p_i, before and after their rules, placed by this PRNG seed); Stratify
+	// is then called on the predicate sets and rules of the resulting ProgramInfo, as the engine does.
+	Via int64 `json:"via,omitempty"`
 }
 
 type c03 struct{}
@@ -46,7 +51,7 @@ func (c03) Cases(tier string) int {
 func (c03) Describe() core.Info {
 	return core.Info{
 		Level: "exploration",
-		Rule: "direct calls to analysis.Stratify on synthetic rule sets realising a chosen labelling {absent, positive, negative-by-negation, negative-by-aggregation} of every ordered predicate pair (self loops included), each positive/aggregated mention either plain or inside a TemporalLiteral (with or without operator); in half of the sampled graphs 1-3 pairs are mentioned again with another polarity (same rule, another rule of the same head, or the aggregating rule) and in half the rule list is shuffled, so that the strongest mention may come first or last; 3-8 predicates; every graph submitted 3 times (map-order variation). The thorough tier first enumerates all 3^9 labellings on 3 predicates (observed counter enumerated_3pred_labellings; negative realisation and temporal wrapping drawn from the PRNG), then samples. Oracle: own Tarjan SCC over the generated edge list; failure expected iff a negative edge lies inside an SCC; on success layers must be a partition containing every rule head, list and map must agree, every dependency must point to the same or an earlier layer (strictly earlier if negative), SCC mates share a layer. Non-trivial: >= 2 SCCs or a negative edge; distinct by labelled graph.",
+		Rule: "calls to analysis.Stratify on synthetic rule sets (directly, or - a third of the graphs without temporal mentions - through analysis.AnalyzeOneUnit of a source unit that also holds facts for e and for some of the p_i, placed before and after their rules, with Stratify then called on the ProgramInfo's predicate sets and rules as the engine does) realising a chosen labelling {absent, positive, negative-by-negation, negative-by-aggregation} of every ordered predicate pair (self loops included), each positive/aggregated mention either plain or inside a TemporalLiteral (with or without operator); in half of the sampled graphs 1-3 pairs are mentioned again with another polarity (same rule, another rule of the same head, or the aggregating rule) and in half the rule list is shuffled, so that the strongest mention may come first or last; 3-8 predicates; every graph submitted 3 times (map-order variation). The thorough tier first enumerates all 3^9 labellings on 3 predicates (observed counter enumerated_3pred_labellings; negative realisation and temporal wrapping drawn from the PRNG), then samples. Oracle: own Tarjan SCC over the generated edge list; failure expected iff a negative edge lies inside an SCC; on success layers must be a partition containing every rule head, list and map must agree, every dependency must point to the same or an earlier layer (strictly earlier if negative), SCC mates share a layer. Non-trivial: >= 2 SCCs or a negative edge; distinct by labelled graph.",
 		Assumptions: []string{"negation inside a temporal literal is not producible by the parser and not generated"},
 	}
 }
@@ -114,6 +119,15 @@ func (c03) Gen(r *rand.Rand, tier string, i int) any {
 		}
 		if r.Intn(2) == 0 {
 			r.Shuffle(len(c.Edges), func(a, b int) { c.Edges[a], c.Edges[b] = c.Edges[b], c.Edges[a] })
+		}
+	}
+	if r.Intn(3) == 0 {
+		temporal := false
+		for _, e := range c.Edges {
+			temporal = temporal || e.Temporal
+		}
+		if !temporal {
+			c.Via = 1 + r.Int63n(1<<40)
 		}
 	}
 	if r.Intn(2) == 0 {
@@ -198,6 +212,34 @@ func c03Program(c c03Case) analysis.Program {
 	return prog
 }
 
+// c03Stratify submits the rule set: directly, or through the analysis of a source unit with facts (Via).
+func c03Stratify(c c03Case) (strata []analysis.Nodeset, m map[ast.PredicateSym]int, err error, skip string) {
+	prog := c03Program(c)
+	if c.Via == 0 {
+		strata, m, err = analysis.Stratify(prog)
+		return strata, m, err, ""
+	}
+	r := rand.New(rand.NewSource(c.Via))
+	one := ast.Number(1)
+	clauses := append([]ast.Clause{}, prog.Rules...)
+	facts := []ast.Clause{{Head: ast.Atom{Predicate: ast.PredicateSym{Symbol: "e", Arity: 1}, Args: []ast.BaseTerm{one}}}}
+	for i := 0; i < c.N; i++ {
+		if r.Intn(2) == 0 {
+			facts = append(facts, ast.Clause{Head: ast.Atom{Predicate: c03Pred(i), Args: []ast.BaseTerm{ast.Number(int64(r.Intn(3)))}}})
+		}
+	}
+	for _, f := range facts {
+		k := r.Intn(len(clauses) + 1)
+		clauses = append(clauses[:k], append([]ast.Clause{f}, clauses[k:]...)...)
+	}
+	pi, aerr := analysis.AnalyzeOneUnit(parse.SourceUnit{Clauses: clauses}, nil)
+	if aerr != nil {
+		return nil, nil, nil, "analysis-rejected"
+	}
+	strata, m, err = analysis.Stratify(analysis.Program{EdbPredicates: pi.EdbPredicates, IdbPredicates: pi.IdbPredicates, Rules: pi.Rules})
+	return strata, m, err, ""
+}
+
 // tarjan returns the SCC id of each node.
 func tarjan(n int, adj [][]int) []int {
 	index := make([]int, n)
@@ -271,7 +313,10 @@ func c03Check(c c03Case) (sig, msg string) {
 		return ""
 	}
 	for rep := 0; rep < 3; rep++ {
-		strata, m, err := analysis.Stratify(c03Program(c))
+		strata, m, err, skip := c03Stratify(c)
+		if skip != "" {
+			return "", "" // counted by the caller through c03Skipped
+		}
 		if negCycle {
 			if err == nil {
 				tag := ""
@@ -340,7 +385,7 @@ func (c03) Run(cs any) core.Result {
 	c := cs.(c03Case)
 	var res core.Result
 	res.Evals = 3
-	res.Key = core.HashKey(fmt.Sprint(c.N, c.Edges, c.Perm))
+	res.Key = core.HashKey(fmt.Sprint(c.N, c.Edges, c.Perm, c.Via))
 	adj := make([][]int, c.N)
 	hasNeg, hasTemporal := false, false
 	for _, e := range c.Edges {
@@ -365,6 +410,12 @@ func (c03) Run(cs any) core.Result {
 	}
 	if hasTemporal {
 		res.Ob("graphs_with_temporal_mentions", 1)
+	}
+	if c.Via != 0 {
+		res.Ob("graphs_submitted_through_analysis_with_facts", 1)
+		if _, _, _, skip := c03Stratify(c); skip != "" {
+			res.Ob("skipped:"+skip, 1)
+		}
 	}
 	sig, msg := c03Check(c)
 	if sig == "" {
